@@ -57,3 +57,51 @@ Lemma skip_empty_keeps_old_files :
 Proof.
   exists (fun _ => []), [(sfx_Unit, [[1]])]. vm_compute. intro H. discriminate.
 Qed.
+
+(* ------------------------------------------------------------------ cells *)
+
+(* the code (na_rep = '', no na_values): every non-empty text comes back as itself -- 'n/a', 'NA', 'nan', 'None',
+   'null', '#N/A', '<NA>' included -- and a cell without a value comes back as no value *)
+Lemma cell_roundtrip (c : option str) :
+  c <> Some [] -> cell_value (csv_read_cell [] (csv_write_cell [] c)) = c.
+Proof.
+  intro H. destruct c as [[|x s]|]; [exfalso; apply H; reflexivity | reflexivity | reflexivity].
+Qed.
+
+(* not the code: with a marker for the empty cell, the text that equals the marker is lost *)
+Lemma cell_marker_variant_loses_text :
+  exists marker c, c <> Some [] /\ cell_value (csv_read_cell [marker] (csv_write_cell marker c)) <> c.
+Proof.
+  exists [110; 47; 97]%N, (Some [110; 47; 97]%N). split; [discriminate|]. vm_compute. discriminate.
+Qed.
+
+(* ------------------------------------------------------------------ the save location *)
+
+Lemma cs_implies_ci name : is_dot_tsv_cs name = true -> is_dot_tsv_ci name = true.
+Proof.
+  unfold is_dot_tsv_cs, is_dot_tsv_ci. destruct (rev name) as [|v [|s [|t [|d [|x r]]]]]; try discriminate.
+  intro H. apply andb_true_iff in H as [H Hv]. apply andb_true_iff in H as [H Hs]. apply andb_true_iff in H as [Hd Ht].
+  rewrite Hd, Ht, Hs, Hv. reflexivity.
+Qed.
+
+(* reader and writer agree on the ten files of every location whose name does not end in .tsv written with capital
+   letters -- in particular of every FOLDER name, whatever dots it holds (HED8.3.0, a.b.c, a trailing dot) *)
+Lemma location_files_agree parent name :
+  is_dot_tsv_ci name = is_dot_tsv_cs name -> reader_files false parent name = writer_files parent name.
+Proof. intro H. unfold reader_files, writer_files. rewrite H. reflexivity. Qed.
+
+Lemma folder_files_agree parent name :
+  is_dot_tsv_ci name = false -> reader_files false parent name = writer_files parent name.
+Proof.
+  intro H. apply location_files_agree. rewrite H. symmetry.
+  destruct (is_dot_tsv_cs name) eqn:E; [|reflexivity]. rewrite (cs_implies_ci _ E) in H. discriminate.
+Qed.
+
+(* with the case-insensitive test of fix-F8 they agree on every location *)
+Lemma location_files_agree_fixed parent name : reader_files true parent name = writer_files parent name.
+Proof. reflexivity. Qed.
+
+(* finding C05-F8: the exact comparison and a suffix written .TSV *)
+Lemma location_upper_suffix_disagrees :
+  exists parent name, reader_files false parent name <> writer_files parent name.
+Proof. exists [], [120; 46; 84; 83; 86]%N. vm_compute. discriminate. Qed.
